@@ -89,7 +89,7 @@ fn undo_history_check(case: &Value, stats: &mut Stats) -> CheckResult {
 // ------------------------------------------------------------------------------------------
 // metamorphic: transpositions and counters
 
-fn gen_transposition_case(cur: &mut Cursor) -> Value {
+pub fn gen_transposition_case(cur: &mut Cursor) -> Value {
     let (p, src) = gen_position(cur);
     let sel: Vec<u8> = (0..4).map(|_| cur.u8()).collect();
     json!({"fen": p.fen(), "src": src, "sel": sel, "half2": cur.u16(), "full2": cur.u16()})
